@@ -111,7 +111,7 @@ SliceN ==
 \* ---- slice M: struct shape, field visibility, outer attributes
 SliceM ==
   {[Src(fam, <<DerB(<<"Debug">>)>>, AllFeats) EXCEPT !.fieldvis = fv, !.outer = o, !.shape = sh] :
-     fam \in Families, fv \in {"", "pub", "pub(crate)"}, o \in {"", "derive", "foreign", "doc"}, sh \in {"tuple"}}
+     fam \in Families, fv \in {"", "pub", "pub(crate)"}, o \in {"", "derive", "foreign", "doc", "derive_path", "tool"}, sh \in {"tuple"}}
   \cup {[Src("int", <<>>, AllFeats) EXCEPT !.shape = sh] : sh \in {"named", "unit", "empty", "enum"}}
 
 \* ---- slice V: shapes of the validate block
@@ -175,6 +175,10 @@ SliceL ==
   {[Src("any", sb \o vb \o <<DerB(tr)>> \o nu, AllFeats) EXCEPT !.tparams = g[1], !.ty = g[2]] :
      g \in GenForms, tr \in LTraits, vb \in {<<>>, ValOf("any", "std"), ValOf("any", "custom")},
      sb \in {<<>>, <<SanB(<<S("with")>>)>>}, nu \in {<<>>, <<Blk("new_unchecked")>>}}
+  \* the bare type parameter as inner type: here the traits the catalogue inner types lack (Display, FromStr, Copy) can be derived
+  \cup {[Src("any", <<DerB(tr)>>, AllFeats) EXCEPT !.tparams = <<"T">>, !.ty = "T"] :
+          tr \in {<<"Debug", "FromStr">>, <<"Display">>, <<"Debug", "Display", "FromStr">>, <<"Clone", "Copy">>,
+                  <<"Debug", "Clone", "PartialEq", "Eq", "PartialOrd", "Ord", "Hash", "AsRef", "Deref", "Borrow", "Display", "FromStr", "Serialize", "Deserialize">>}}
 
 IsG(src) == src \in SliceG
 
